@@ -228,6 +228,11 @@ def generate(seed, run, tier):
                 events.append({"op": "iter_next", "it": it, "n": wrng.randint(1, 3), "c": it})
     for it in sorted(live):
         events.append({"op": "iter_drain", "it": it, "c": it})
+    if crng.random() < 0.06 and events:
+        # elsewhere in the process another TrieDict is used through its other
+        # mutator (nested valued keys, then a prune): instances share nothing
+        pos = srng.randrange(len(events) + 1)
+        events.insert(pos, {"op": "foreign_prune", "c": "X"})
     if crng.random() < 0.02 and events:
         # thousands of distinct lookups (more than a bounded cache would hold),
         # then one more assignment and a complete sweep
@@ -388,6 +393,12 @@ class Run(object):
         do_iter = force or sw.get("iter", True)
         self.sweeps += 1
         off = self.sweeps % stride
+        # every other complete observation starts with the traversals: nothing has
+        # then been asked of the container since the last assignment
+        iter_first = do_iter and self.sweeps % 2 == 1
+        if iter_first:
+            for kind in ITER_KINDS:
+                self.judge_iteration(kind, bounded(self.open_iter(kind), len(self.model)), op)
         forms = ("list", "tuple", "gen")
         n = 0
         for key in self.universe:
@@ -509,6 +520,17 @@ class Run(object):
                 if hit and model[key[: hit[-1]]] is None:
                     stats.probe("lmpv_longest_is_none")
             stats.event("%s|%s|%s|%s" % (ev.get("c"), op, canon(ev["key"]), form))
+        elif op == "foreign_prune":
+            from ural.classes import TrieDict
+
+            other = TrieDict()
+            a, b = self.cfg["alphabet"][0], self.cfg["alphabet"][-1]
+            other[[a, b]] = "foreign-1"
+            other[[a, b, a]] = "foreign-2"
+            other[[a, b, b, a]] = "foreign-3"
+            other.set_and_prune_if_shorter([a], "foreign-4")
+            stats.probe("foreign_instance_pruned")
+            stats.event("X|foreign_prune")
         elif op == "flood":
             n = min(int(ev.get("n", 0)), 20000)
             trie = self.trie
